@@ -1,5 +1,5 @@
 (** Extraction roots of the solver-text domain (driver: extract/drv_text.ml). *)
-From SP Require Base.Sat Core.Card Text.Tok Text.Dimacs Text.SolverIO Text.Opb.
+From SP Require Base.Sat Core.Card Text.Tok Text.Dimacs Text.SolverIO Text.Opb Text.Chars Text.TextChars.
 Definition roots :=
   (Text.Dimacs.str_lines, Text.Dimacs.dimacs_lines, Text.Dimacs.unigen_lines,
    Text.Dimacs.support_set, Text.Dimacs.cnf_num_vars, Text.Dimacs.save_cnf_lines,
@@ -11,4 +11,16 @@ Definition roots :=
    Text.SolverIO.cmsgen_format,
    Text.Opb.opb_lines, Text.Opb.opb_file, Text.Opb.opb_file_with, Text.Opb.gt_rhs,
    Text.Opb.ilp_block_line, Text.Opb.ilp_update, Text.Opb.pb_line_sat, Text.Opb.pb_file_sat,
-   Base.Sat.sat, Base.Sat.csat).
+   Base.Sat.sat, Base.Sat.csat,
+   (* character level *)
+   Text.Chars.string_of_Z, Text.Chars.Z_of_string, Text.Chars.split_ws, Text.Chars.strip,
+   Text.Chars.lines, Text.Chars.join,
+   Text.TextChars.tok_of_string, Text.TextChars.string_of_tok, Text.TextChars.lex_file,
+   Text.TextChars.render_file,
+   Text.TextChars.str_text, Text.TextChars.dimacs_text, Text.TextChars.unigen_text,
+   Text.TextChars.save_cnf_text, Text.TextChars.combine_save_text,
+   Text.TextChars.parse_cms_text, Text.TextChars.parse_unigen_text, Text.TextChars.sampler_input_text,
+   Text.TextChars.update_file_text, Text.TextChars.cms_output_text, Text.TextChars.parse_v_text,
+   Text.TextChars.solve_result_text, Text.TextChars.unigen_format_text, Text.TextChars.parse_sampler_text,
+   Text.TextChars.opb_text, Text.TextChars.opb_file_text, Text.TextChars.ilp_update_text,
+   Text.TextChars.pb_file_sat_text).
